@@ -2,6 +2,7 @@ package unitschk
 
 import (
 	"bytes"
+	"crypto/sha256"
 	"fmt"
 	"io"
 	"log"
@@ -300,6 +301,7 @@ type c23Stats struct {
 	oddGran        bool
 	interleaved    bool
 	memReqs        int
+	maxInflight    int // memory requests of the mover in flight at once
 }
 
 type c23Fail struct {
@@ -308,7 +310,7 @@ type c23Fail struct {
 
 // c23Exec runs one case against the real components and returns the first
 // violation found ("" when there is none).
-func c23Exec(c c23Case) (sig, msg string, st c23Stats) {
+func c23Exec(c c23Case, rec *fpRec) (sig, msg string, st c23Stats) {
 	timing.ResetIDGenerator()
 	log.SetOutput(io.Discard) // the alignment panic goes through log.Panicf
 	engine := timing.NewSerialEngine()
@@ -331,6 +333,7 @@ func c23Exec(c c23Case) (sig, msg string, st c23Stats) {
 	model := make([][]byte, nMem)
 	mappers := make([]mem.AddressToPortMapper, nMem)
 	var memPorts []messaging.Port
+	var memCtls []*idealmemcontroller.Comp
 	for i := 0; i < nMem; i++ {
 		md := c.Mems[i]
 		capacity := uint64(md.CapKiB) * 1024
@@ -351,6 +354,7 @@ func c23Exec(c c23Case) (sig, msg string, st c23Stats) {
 				WithSpec(spec).
 				WithResources(idealmemcontroller.Resources{Storage: storages[i]}).
 				Build(fmt.Sprintf("Mem%dCtl%d", i, k))
+			memCtls = append(memCtls, ctl)
 			top := assignPort(reg, ctl, "Top", md.TopBuf[k])
 			memPorts = append(memPorts, top, assignPort(reg, ctl, "Control", 1))
 			tops = append(tops, top.AsRemote())
@@ -526,11 +530,19 @@ func c23Exec(c c23Case) (sig, msg string, st c23Stats) {
 			checkStorages(fmt.Sprintf("at acknowledgement #%d", k), k)
 		}
 	})
+	inflight := 0
 	memSide := func(ctx hooking.HookCtx) {
+		if ctx.Pos == messaging.HookPosPortMsgRecvd {
+			inflight--
+		}
 		if ctx.Pos != messaging.HookPosPortMsgSend {
 			return
 		}
 		st.memReqs++
+		inflight++
+		if inflight > st.maxInflight {
+			st.maxInflight = inflight
+		}
 		if !active {
 			var a uint64
 			if ar, ok := ctx.Item.(memprotocol.AccessReq); ok {
@@ -541,6 +553,29 @@ func c23Exec(c c23Case) (sig, msg string, st c23Stats) {
 	}
 	onHook(dmIn, memSide)
 	onHook(dmOut, memSide)
+
+	if rec != nil {
+		rec.attach(engine, append([]messaging.Port{dmTop, dmIn, dmOut, dmCtrl, drvPort}, memPorts...))
+	}
+	defer func() {
+		if rec == nil {
+			return
+		}
+		rec.addFinal("component", dm.Name(), dm.State)
+		rec.addFinal("component", drv.Name(), drv.State)
+		for _, ctl := range memCtls {
+			rec.addFinal("component", ctl.Name(), ctl.State)
+		}
+		rec.addFinal("connection", connA.Name(), connA.State)
+		if connB != connA {
+			rec.addFinal("connection", connB.Name(), connB.State)
+		}
+		for i := range storages {
+			b, _ := storages[i].Read(0, uint64(len(model[i])))
+			rec.addFinal("storage", fmt.Sprintf("Storage%d", i), fmt.Sprintf("%x", sha256.Sum256(b)))
+		}
+		rec.finish()
+	}()
 
 	drv.TickLater()
 	if ok, psig, pmsg := kit.Guard(func() { _ = engine.Run() }); !ok {
@@ -654,7 +689,7 @@ func TestC23(t *testing.T) {
 
 	run := func(f kit.Failer, c c23Case) {
 		s.Excluded(c.Steered)
-		sig, msg, st := c23Exec(c)
+		sig, msg, st := c23Exec(c, nil)
 		if sig != "" {
 			s.Fail(f, c, c23InputClass(c)+sig, "%s", msg)
 			return
@@ -709,7 +744,7 @@ func TestC23Misaligned(t *testing.T) {
 	defer s.End()
 
 	run := func(f kit.Failer, c c23Case) {
-		sig, msg, st := c23Exec(c)
+		sig, msg, st := c23Exec(c, nil)
 		mv := c.Moves[0]
 		if strings.HasPrefix(sig, "panic:") && strings.Contains(msg, "must be aligned to") && st.changedAtPanic {
 			s.Fail(f, c, "misaligned-modified-memory", "move %+v was rejected but memory changed", mv)
@@ -779,7 +814,7 @@ func c23Known(t *testing.T, name, sig string, c c23Case) {
 	if kit.ReplayMode() {
 		t.Skip()
 	}
-	got, msg, _ := c23Exec(c)
+	got, msg, _ := c23Exec(c, nil)
 	if got != "" {
 		got = c23InputClass(c) + got
 	}
